@@ -23,17 +23,18 @@ from ..fmutil import T, ad, close, err_class, fm
 MODULES = ["TimeAdapters", "TimeAdaptersLemmas"]
 GEN_OBLIGATIONS = ["caching_push_based"]
 KINDS = ["next", "prev", "linear", "step"]
-SHAPES = {"scalar": None, "g2": (3,), "g22": (3, 3)}  # grid dims (points) -> cells 2 / 2x2
+SHAPES = {"scalar": None, "g2": (3,), "g22": (3, 3),   # grid dims (points) -> cells 2 / 2x2
+          "g1": (2, 2), "g213": (3, 2, 4)}              # one cell; one layer of cells: data shapes (1, 1) and (2, 1, 3)
 
 
 def ncells(shape):
-    return {"scalar": 1, "g2": 2, "g22": 4}[shape]
+    return {"scalar": 1, "g2": 2, "g22": 4, "g1": 1, "g213": 6}[shape]
 
 
 def gen_case(rng, max_events=40):
     kind = rng.choice(KINDS)
     pos = rng.randrange(0, 9)
-    shape = rng.choices(list(SHAPES), weights=[6, 2, 2])[0]
+    shape = rng.choices(list(SHAPES), weights=[6, 2, 2, 1, 1])[0]
     nc = ncells(shape)
     scale = rng.choice([1, 8, 8, 1000, 3_600_000_000, 86_400_000_000])
     gaps = rng.choice([[1, 2, 3, 5], [8, 16, 24], [4, 8, 12, 40], [7, 9], [8]])
